@@ -1,0 +1,190 @@
+//go:build verif
+
+package rueidis
+
+import (
+	"context"
+	"time"
+
+	"github.com/redis/rueidis/internal/cmds"
+)
+
+// Verification hooks (build tag `verif` only): the real standalone / sentinel /
+// cluster / single clients built by their own constructors over scripted fake
+// connections, one per address (the same injection point the package's tests use:
+// the unexported connFn), plus read-only views of the sentinel client's targets and
+// wrappers for the retry policy functions.
+
+// VerifNode is the behaviour of one fake connection (one per connFn call).
+type VerifNode interface {
+	Dial() error
+	Do(ctx context.Context, cmd Completed) RedisResult
+	DoMulti(ctx context.Context, multi ...Completed) []RedisResult
+	DoCache(ctx context.Context, cmd Cacheable, ttl time.Duration) RedisResult
+	DoMultiCache(ctx context.Context, multi ...CacheableTTL) []RedisResult
+	Receive(ctx context.Context, subscribe Completed, fn func(PubSubMessage)) error
+	Stream(ctx context.Context, multi ...Completed)
+	Err() error
+	Close()
+	AZ() string
+	Version() int
+}
+
+// VerifNodeFn makes the fake connection for an address. replicaOpt reports whether the
+// client asked for the connection with its ReplicaOnly option set (the READONLY handshake).
+type VerifNodeFn func(addr string, replicaOpt bool) VerifNode
+
+type verifRouteConn struct {
+	n    VerifNode
+	addr string
+}
+
+var _ conn = (*verifRouteConn)(nil)
+
+func (c *verifRouteConn) Do(ctx context.Context, cmd Completed) RedisResult { return c.n.Do(ctx, cmd) }
+func (c *verifRouteConn) DoCache(ctx context.Context, cmd Cacheable, ttl time.Duration) RedisResult {
+	return c.n.DoCache(ctx, cmd, ttl)
+}
+func (c *verifRouteConn) DoMulti(ctx context.Context, multi ...Completed) *redisresults {
+	return &redisresults{s: c.n.DoMulti(ctx, multi...)}
+}
+func (c *verifRouteConn) DoMultiCache(ctx context.Context, multi ...CacheableTTL) *redisresults {
+	return &redisresults{s: c.n.DoMultiCache(ctx, multi...)}
+}
+func (c *verifRouteConn) Receive(ctx context.Context, subscribe Completed, fn func(PubSubMessage)) error {
+	return c.n.Receive(ctx, subscribe, fn)
+}
+func (c *verifRouteConn) DoStream(ctx context.Context, cmd Completed) RedisResultStream {
+	c.n.Stream(ctx, cmd)
+	return RedisResultStream{e: ErrClosing}
+}
+func (c *verifRouteConn) DoMultiStream(ctx context.Context, multi ...Completed) MultiRedisResultStream {
+	c.n.Stream(ctx, multi...)
+	return MultiRedisResultStream{e: ErrClosing}
+}
+func (c *verifRouteConn) Info() map[string]RedisMessage { return nil }
+func (c *verifRouteConn) Version() int                  { return c.n.Version() }
+func (c *verifRouteConn) AZ() string                    { return c.n.AZ() }
+func (c *verifRouteConn) Error() error                  { return c.n.Err() }
+func (c *verifRouteConn) Close()                        { c.n.Close() }
+func (c *verifRouteConn) Dial() error                   { return c.n.Dial() }
+func (c *verifRouteConn) Override(conn)                 {}
+func (c *verifRouteConn) Acquire(context.Context) wire  { return nil }
+func (c *verifRouteConn) Store(wire)                    {}
+func (c *verifRouteConn) Addr() string                  { return c.addr }
+func (c *verifRouteConn) SetOnCloseHook(func(error))    {}
+func (c *verifRouteConn) OptInCmd() cmds.Completed      { return cmds.OptInCmd }
+
+func verifConnFn(fn VerifNodeFn) connFn {
+	return func(dst string, opt *ClientOption) conn {
+		return &verifRouteConn{n: fn(dst, opt != nil && opt.ReplicaOnly), addr: dst}
+	}
+}
+
+func verifRetryer(opt *ClientOption) retryHandler {
+	if opt.RetryDelay == nil {
+		opt.RetryDelay = defaultRetryDelayFn // as NewClient does
+	}
+	return newRetryer(opt.RetryDelay)
+}
+
+// VerifNewSingle is newSingleClient over fake connections.
+func VerifNewSingle(opt ClientOption, fn VerifNodeFn) (Client, error) {
+	c, err := newSingleClient(&opt, nil, verifConnFn(fn), verifRetryer(&opt))
+	if c == nil {
+		return nil, err
+	}
+	return c, err
+}
+
+// VerifNewStandalone is NewClient's standalone branch (incl. its option checks) over fake connections.
+func VerifNewStandalone(opt ClientOption, fn VerifNodeFn) (Client, error) {
+	if opt.Standalone.EnableRedirect && len(opt.Standalone.ReplicaAddress) > 0 {
+		return nil, ErrNoAddr
+	}
+	if !opt.Standalone.EnableRedirect && len(opt.Standalone.ReplicaAddress) > 0 && opt.SendToReplicas == nil {
+		return nil, ErrNoSendToReplicas
+	}
+	c, err := newStandaloneClient(&opt, verifConnFn(fn), verifRetryer(&opt))
+	if c == nil {
+		return nil, err
+	}
+	return c, err
+}
+
+// VerifNewSentinel is newSentinelClient over fake connections.
+func VerifNewSentinel(opt ClientOption, fn VerifNodeFn) (Client, error) {
+	c, err := newSentinelClient(&opt, verifConnFn(fn), verifRetryer(&opt))
+	if c == nil {
+		return nil, err
+	}
+	return c, err
+}
+
+// VerifNewCluster is newClusterClient over fake connections.
+func VerifNewCluster(opt ClientOption, fn VerifNodeFn) (Client, error) {
+	c, err := newClusterClient(&opt, verifConnFn(fn), verifRetryer(&opt))
+	if c == nil {
+		return nil, err
+	}
+	return c, err
+}
+
+// VerifSentinelTargets reports the stored master / replica addresses ("" when unset) and
+// whether a connection is stored for each.
+func VerifSentinelTargets(c Client) (mAddr, rAddr string, mSet, rSet bool) {
+	s := c.(*sentinelClient)
+	if v := s.mAddr.Load(); v != nil {
+		mAddr = v.(string)
+	}
+	if v := s.rAddr.Load(); v != nil {
+		rAddr = v.(string)
+	}
+	if v := s.mConn.Load(); v != nil {
+		mSet = true
+		if vc, ok := v.(*verifRouteConn); ok && vc.addr != mAddr {
+			mAddr = mAddr + "!=" + vc.addr
+		}
+	}
+	if v := s.rConn.Load(); v != nil {
+		rSet = true
+		if vc, ok := v.(*verifRouteConn); ok && vc.addr != rAddr {
+			rAddr = rAddr + "!=" + vc.addr
+		}
+	}
+	return
+}
+
+// VerifSentinelList is the client's current sentinel list, front to back.
+func VerifSentinelList(c Client) (out []string) {
+	s := c.(*sentinelClient)
+	s.mu.Lock()
+	for e := s.sentinels.Front(); e != nil; e = e.Next() {
+		out = append(out, e.Value.(string))
+	}
+	s.mu.Unlock()
+	return
+}
+
+// VerifSentinelRefresh runs one refresh() of the sentinel client.
+func VerifSentinelRefresh(c Client) error { return c.(*sentinelClient).refresh() }
+
+// Retry policy wrappers.
+func VerifDefaultRetryDelay(attempts int) time.Duration {
+	return defaultRetryDelayFn(attempts, Completed{}, nil)
+}
+
+func VerifWaitOrSkipRetry(fn RetryDelayFn, ctx context.Context, attempts int, cmd Completed, err error) bool {
+	return newRetryer(fn).WaitOrSkipRetry(ctx, attempts, cmd, err)
+}
+
+func VerifWaitForRetry(ctx context.Context, d time.Duration) {
+	newRetryer(nil).WaitForRetry(ctx, d)
+}
+
+func VerifErrConnExpired() error { return errConnExpired }
+
+var (
+	VerifErrNotMaster = errNotMaster
+	VerifErrNotSlave  = errNotSlave
+)
